@@ -10,6 +10,12 @@
 //   "S <secs>,<nsecs>,<dplaces>,<gm> ..."  the same renderer called once per item, in order, in this
 //                                process (the function is specified as stateless)
 //                                -> "<text>|<text>|..."
+//   "C <iters> <t,t,..>;<t,t,..>;..."  one REAL thread per ';'-separated list, all started together; each
+//                                thread has its own Field objects and renders (print) and parses back
+//                                its own instants <iters> times, rotating over the five field types,
+//                                and compares with the single-threaded rendering of the same instant
+//                                made before the threads start
+//                                -> "K0=<mismatches>[:<ticks>:<kind>:<wrong text>,<ticks back>] K1=..."
 //   "G <day>"                    Tickval(day * Tickval::day).get_tm()  (gmtime_r)
 //                                -> "<year> <month> <day> <hour> <min> <sec>"
 // Signed overflow / negative shift in the inline codecs is reported by UBSan and execution
@@ -18,6 +24,8 @@
 #include "hcommon.hpp"
 #include <fix8/f8includes.hpp>
 #include <iomanip>
+#include <thread>
+#include <atomic>
 
 using namespace FIX8;
 
@@ -76,6 +84,86 @@ static std::string parse_print(const char *blk)
 	if (t == "NOW")
 		return t;
 	return t + ' ' + esc(printed(f));
+}
+
+// ---- concurrent rendering ------------------------------------------------------------------
+struct Rendering { std::string text; long long back; };
+static const char *const conc_kinds[] = { "TS", "TO", "DO", "LD", "M6", "M8" };
+enum { conc_nkinds = 6 };
+
+// print() of a fresh field of the given type holding ticks, and the ticks of a second field built from that text
+static Rendering render_kind(int kind, Tickval::ticks ticks)
+{
+	const Tickval tv(ticks);
+	char buf[64] = {};
+	Rendering r;
+	switch (kind)
+	{
+	case 0: { Field<UTCTimestamp, 52> f(tv); r.text.assign(buf, f.print(buf));
+				 r.back = Field<UTCTimestamp, 52>(r.text).get().get_ticks(); break; }
+	case 1: { Field<UTCTimeOnly, 273> f; f.set(tv); r.text.assign(buf, f.print(buf));
+				 r.back = Field<UTCTimeOnly, 273>(r.text).get().get_ticks(); break; }
+	case 2: { Field<UTCDateOnly, 272> f; f.set(tv); r.text.assign(buf, f.print(buf));
+				 r.back = Field<UTCDateOnly, 272>(r.text).get().get_ticks(); break; }
+	case 3: { Field<LocalMktDate, 75> f; f.set(tv); r.text.assign(buf, f.print(buf));
+				 r.back = Field<LocalMktDate, 75>(r.text).get().get_ticks(); break; }
+	case 4: { Field<MonthYear, 200> f(f8String("197001")); f.set(tv); r.text.assign(buf, f.print(buf));
+				 r.back = Field<MonthYear, 200>(r.text).get().get_ticks(); break; }
+	default: { Field<MonthYear, 200> f(f8String("19700101")); f.set(tv); r.text.assign(buf, f.print(buf));
+				 r.back = Field<MonthYear, 200>(r.text).get().get_ticks(); break; }
+	}
+	return r;
+}
+
+struct ConcThread
+{
+	std::vector<long long> instants;
+	std::vector<Rendering> reference;	// [instant * conc_nkinds + kind], made single-threaded
+	unsigned long mismatches = 0;
+	std::string first;
+};
+
+static std::string run_concurrent(unsigned long iters, std::vector<ConcThread>& th)
+{
+	for (auto& t : th)
+		for (long long ticks : t.instants)
+			for (int k = 0; k < conc_nkinds; ++k)
+				t.reference.push_back(render_kind(k, ticks));
+	std::atomic<unsigned> ready(0);
+	std::atomic<bool> go(false);
+	std::vector<std::thread> workers;
+	for (size_t j = 0; j < th.size(); ++j)
+		workers.emplace_back([&, j]()
+		{
+			ConcThread& me(th[j]);		// nothing of `me` is touched by another thread
+			++ready;
+			while (!go.load()) std::this_thread::yield();
+			const size_t n(me.instants.size());
+			for (unsigned long i = 0; i < iters; ++i)
+			{
+				const size_t idx(i % n);
+				const int kind(static_cast<int>((i / n) % conc_nkinds));
+				const Rendering r(render_kind(kind, me.instants[idx]));
+				const Rendering& ref(me.reference[idx * conc_nkinds + kind]);
+				if (r.text != ref.text || r.back != ref.back)
+					if (me.mismatches++ == 0)
+						me.first = std::to_string(me.instants[idx]) + ':' + conc_kinds[kind] + ':' + esc(r.text) + ','
+							+ std::to_string(r.back);
+			}
+		});
+	while (ready.load() < th.size()) std::this_thread::yield();
+	go.store(true);
+	for (auto& w : workers)
+		w.join();
+	std::string out;
+	for (size_t j = 0; j < th.size(); ++j)
+	{
+		if (j) out += ' ';
+		out += "K" + std::to_string(j) + "=" + std::to_string(th[j].mismatches);
+		if (th[j].mismatches)
+			out += ':' + th[j].first;
+	}
+	return out;
 }
 
 int main()
@@ -152,6 +240,20 @@ int main()
 					out += esc(text, true);
 					first = false;
 				}
+			}
+			else if (what == "C")
+			{
+				unsigned long iters; std::string lists;
+				is >> iters >> lists;
+				std::vector<ConcThread> th;
+				for (const std::string& l : split(lists, ';'))
+				{
+					ConcThread t;
+					for (const std::string& x : split(l, ','))
+						t.instants.push_back(std::stoll(x));
+					th.push_back(t);
+				}
+				out = run_concurrent(iters, th);
 			}
 			else if (what == "G")
 			{
